@@ -1,0 +1,34 @@
+//! Yield-point site ids of the shared-memory state.
+//!
+//! Only compiled with `--cfg aranya_core_verif`. Each constant
+//! names the atomic access (or mutex acquisition) that
+//! immediately follows the `verif_hook::yield_point` call that
+//! uses it.
+
+#![cfg(aranya_core_verif)]
+
+/// `WriteState::add`: `next_chan_id.fetch_add`.
+pub const SITE_SHM_NEXT_ID_FETCH_ADD: u32 = 100;
+/// Writer: `write_off.load`.
+pub const SITE_SHM_WRITE_OFF_LOAD: u32 = 101;
+/// Writer: locking the list at the write offset.
+pub const SITE_SHM_WRITE_SIDE_LOCK: u32 = 102;
+/// Writer: `read_off.swap`.
+pub const SITE_SHM_READ_OFF_SWAP: u32 = 103;
+/// Writer: locking the list at the old read offset.
+pub const SITE_SHM_READ_SIDE_LOCK: u32 = 104;
+/// Writer: `write_off.store`.
+pub const SITE_SHM_WRITE_OFF_STORE: u32 = 105;
+
+/// Reader: `read_off.load`.
+pub const SITE_SHM_READ_OFF_LOAD: u32 = 110;
+/// Reader: unlocked `generation.load`.
+pub const SITE_SHM_GEN_LOAD: u32 = 111;
+/// Reader: locking the list at the read offset.
+pub const SITE_SHM_READER_LOCK: u32 = 112;
+
+/// Calls the harness' yield callback, if any.
+#[inline]
+pub(crate) fn at(site: u32) {
+    crate::verif_hook::yield_point(site);
+}
